@@ -509,7 +509,7 @@ impl Evaluator {
             let encrypted_Bsk_poly_i = &mut encrypted2_Bsk[i*coeff_count*base_Bsk_size..(i+1)*coeff_count*base_Bsk_size];
             rns_tool.sm_mrq(&temp, encrypted_Bsk_poly_i);
         }
-        polymod::ntt_lazy_ps(&mut encrypted2_Bsk, encrypted1_size, coeff_count, base_Bsk_ntt_tables);
+        polymod::ntt_lazy_ps(&mut encrypted2_Bsk, encrypted2_size, coeff_count, base_Bsk_ntt_tables);
         
         // Allocate temporary space for the output of step (4)
         // We allocate space separately for the base q and the base Bsk components
